@@ -74,7 +74,7 @@ type c04Gen struct {
 	ids    []string
 	vals   []string
 	ents   map[string]map[string]map[string]*string // root -> id -> field -> believed value
-	unique map[string]bool                           // store.field has a unique index
+	unique map[string]bool                          // store.field has a unique index
 }
 
 func newC04Gen(r *rng, w *wiring, ids []string) *c04Gen {
